@@ -193,6 +193,37 @@ def IsFloat64Value (q : Rat) : Prop :=
   (∃ z : Int, q = (z : Rat)) ∨
   (∃ (m : Int) (e : Nat), -9007199254740992 < m ∧ m < 9007199254740992 ∧ q = (m : Rat) / ((2 ^ e : Nat) : Rat))
 
+/-! ## compileRegex and its cache (interp.go) — the regex engine is abstract: `compile` is `regexp.Compile`, `longest` is
+`(*Regexp).Longest()`, `R` the compiled form -/
+
+/-- `compiler.AddRegexFlags`: "(?s:" ++ regex ++ ")" -/
+def addRegexFlags (regex : Bytes) : Bytes := [40, 63, 115, 58] ++ regex ++ [41]
+
+def cacheLookup {R : Type} : List (Bytes × R) → Bytes → Option R
+  | [], _ => none
+  | (k, v) :: rest, x => if k = x then some v else cacheLookup rest x
+
+/-- `p.compileRegex(regex)`: (result — `none` is the "invalid regex" error —, cache afterwards). `limit` = maxCachedRegexes. -/
+def compileRegex {R : Type} (compile : Bytes → Option R) (longest : R → R) (limit : Nat)
+    (cache : List (Bytes × R)) (regex : Bytes) : Option R × List (Bytes × R) :=
+  match cacheLookup cache regex with
+  | some re => (some re, cache)
+  | none =>
+    match compile (addRegexFlags regex) with
+    | none => (none, cache)
+    | some re =>
+      let re := longest re
+      (some re, if cache.length < limit then (regex, re) :: cache else cache)
+
+/-- a run of the interpreter as far as the cache is concerned: the regex sources it compiles, in order -/
+def compileAll {R : Type} (compile : Bytes → Option R) (longest : R → R) (limit : Nat) :
+    List (Bytes × R) → List Bytes → List (Option R) × List (Bytes × R)
+  | cache, [] => ([], cache)
+  | cache, x :: xs =>
+    let r := compileRegex compile longest limit cache x
+    let rest := compileAll compile longest limit r.2 xs
+    (r.1 :: rest.1, rest.2)
+
 /-! ## index -/
 
 /-- `strings.Index`: byte offset of the first occurrence -/
